@@ -48,6 +48,12 @@ METHODS = sorted(PIN) + UNPINNED + sorted(COMPOSITE)
 SHARED_FILES = ("stat", "status", "smaps")
 
 
+# how /proc/<pid>/smaps_rollup behaves in the current case: None (readable),
+# "esrch" / "enoent" (memory_full_info() falls back to /proc/<pid>/smaps,
+# which memory_maps() reads too: one shared source)
+ROLLUP = [None]
+
+
 def apply_version(k, v, zombie=False, denied=(), gone=False):
     """(Re)write process PID so that every source renders differently for
     every version."""
@@ -76,6 +82,8 @@ def apply_version(k, v, zombie=False, denied=(), gone=False):
         unreadable=set(denied), tty_nr=0x8800 + v % 2,
     )
     p.io_counters["syscr"] = v
+    if ROLLUP[0] is not None:
+        p.rollup = ROLLUP[0]      # the roll-up file fails: the per-mapping listing is the source
     if old is not None:
         p.inc = old.inc
     k.procs[PID] = p
@@ -128,7 +136,7 @@ def reference(m, state):
     """What a plain call on a fresh object returns for this process state."""
     import psutil
 
-    key = (m, state)
+    key = (m, state, ROLLUP[0])
     if key in _REF:
         return _REF[key]
     v, zombie, denied, gone = state
@@ -171,6 +179,7 @@ def strategy(tier):
     ]
     seq = st.fixed_dictionaries(dict(
         mode=st.just("seq"),
+        rollup=st.sampled_from([None, None, "esrch", "enoent"]),
         ops=st.lists(st.one_of(*seq_ops), min_size=3, max_size=nops),
     ))
     sched = st.fixed_dictionaries(dict(
@@ -354,6 +363,16 @@ def run_seq(case):
                     alt = reference(m, pins["smaps"])
                     if alt[0] == "ok" and tuple(got[1][:7]) == tuple(exp[1][:7]) \
                             and tuple(got[1][7:]) == tuple(alt[1][7:]):
+                        labels.add("mixed-source-method")
+                        continue
+                if (got != exp and m == "memory_full_info" and blocks and "smaps" in pins
+                        and pins["smaps"] != cur()):
+                    # roll-up unavailable (missing, or the process is a zombie /
+                    # unreadable): the smaps part comes from the
+                    # block's first read of smaps (readable then, whatever it
+                    # is now), the statm part from now - no single moment
+                    alt = reference(m, pins["smaps"])
+                    if got[0] == "ok" and (alt[0] != "ok" or tuple(got[1][7:]) == tuple(alt[1][7:])):
                         labels.add("mixed-source-method")
                         continue
                 if got != exp:
@@ -572,9 +591,16 @@ def run_sched(case):
 
 
 def run_case(case):
-    if case["mode"] == "seq":
-        return run_seq(case)
-    return run_sched(case)
+    ROLLUP[0] = case.get("rollup")
+    try:
+        if case["mode"] == "seq":
+            res = run_seq(case)
+            if case.get("rollup"):
+                res.labels = list(res.labels) + ["smaps_rollup-" + case["rollup"]]
+            return res
+        return run_sched(case)
+    finally:
+        ROLLUP[0] = None
 
 
 PROP = Property(
